@@ -149,7 +149,14 @@ namespace bloch::update {
                 }
                 if (start == pos)
                     break;
-                int value = std::stoi(v.substr(start, pos - start));
+                int value = 0;
+                try {
+                    value = std::stoi(v.substr(start, pos - start));
+                } catch (const std::exception&) {
+                    // A component that does not fit an int cannot be compared: not a version we
+                    // understand (and std::out_of_range must not escape to the CLI).
+                    return SemVer{};
+                }
                 if (idx == 0)
                     sem.major = value;
                 else if (idx == 1)
